@@ -10,6 +10,7 @@ import (
 	"os"
 	"os/exec"
 	"reflect"
+	"runtime"
 	"strings"
 	"sync"
 
@@ -52,6 +53,7 @@ type TenantScenario struct {
 	Pool    world.PoolPlan `json:"pool"`
 	Sched   SchedPlan      `json:"sched"`
 	Race    bool           `json:"race,omitempty"` // additionally execute under the race detector build
+	GC      bool           `json:"gc,omitempty"`   // force a garbage collection every 16th scheduler step (clears sync.Pool caches, runs finalizers)
 }
 
 type tenants struct{}
@@ -179,6 +181,7 @@ func (tenants) Generate(r *core.PRNG, tier string, idx int64) any {
 		sc.Sched.Picks = append(sc.Sched.Picks, r.Intn(64))
 	}
 	sc.Race = idx%8 == 0
+	sc.GC = idx%4 == 1
 	return sc
 }
 
@@ -447,6 +450,9 @@ func runTenants(sc *TenantScenario, log *core.Log) *tenantRun {
 	for alive > 0 && cur >= 0 {
 		code := s.Release(cur)
 		tr.steps++
+		if sc.GC && tr.steps%16 == 0 {
+			runtime.GC()
+		}
 		log.Add("sched", "ran", cur, code)
 		if code == sched.Finished {
 			done[cur] = true
